@@ -194,6 +194,8 @@ def judge_outputs(tag, a, b, expected, scale):
 # =====================================================================================================================
 # part (b): module trees
 # =====================================================================================================================
+THEN_NOOPS = ["Identity", "Max", "Min", "Sum", "Mean"]  # identity functions (variadic operators with one operand) without constants
+ELSE_OPS = ["Neg", "Abs", "Floor", "Ceil", "Sign", "Exp", "Tanh", "Sin", "Cos", "Round"]
 ATTRS = ["a", "b", "c", "d", "layers", "blocks", "fc", "norm"]
 PATTRS = ["w", "bias", "scale", "g"]
 
@@ -214,6 +216,8 @@ class TreeSim:
         self.params = []  # dict(obj, value)
         self.history = []
         self.done = None
+        self.bodies = 0
+        self.noops = 0
 
         class _Probe(Exception):
             """Raised by a fallible child's forward on request; the parent catches it and calls the child again (fallback idiom)."""
@@ -239,6 +243,8 @@ class TreeSim:
                 elif isinstance(child, nn.ModuleList):
                     for m in iterate(child):
                         x = call_child(op, m, x)
+                elif getattr(child, "_vf_in_body", False):
+                    x = call_in_body(op, child, x)
                 else:
                     mode = getattr(child, "_vf_fallible", None)
                     if mode:  # a forward that raises while tracing and is caught: the module scope must be left as it was found
@@ -249,6 +255,31 @@ class TreeSim:
                             pass
                     x = child(op, x)
             return x
+
+        sim = self
+
+        def call_in_body(op, child, x):
+            """The child is called inside the then-branch of an If (condition true) built with GraphBuilder.subgraph: its parameters
+            must still be initializers of the main graph, named by the dotted module path.  The else-branch applies a unary
+            operator of its own kind so that no auto-generated name repeats (sub-builder auto names are a recorded finding)."""
+            import onnx_ir as ir
+            from onnxscript._internal import builder as B
+            from onnxscript.onnx_types import DOUBLE
+
+            k = sim.bodies
+            sim.bodies += 1
+            def then_fn(op2):
+                y = child(op2, x)
+                if y is x:  # a child without parameters returns its argument: a branch output must be produced inside the branch
+                    y = getattr(op2, THEN_NOOPS[sim.noops % len(THEN_NOOPS)])(x)
+                    sim.noops += 1
+                return y
+
+            tb = op.builder.subgraph(then_fn, inputs=[], outputs=[B.make_value(f"then_out_{k}", DOUBLE[2])], name=f"then_{k}")
+            eb = op.builder.subgraph(lambda op2: getattr(op2, ELSE_OPS[k % len(ELSE_OPS)])(x), inputs=[], outputs=[B.make_value(f"else_out_{k}", DOUBLE[2])],
+                                     name=f"else_{k}")
+            cond = op.Constant(value=ir.tensor(np.array(True)))
+            return op.If(cond, then_branch=tb, else_branch=eb)
 
         def iterate(ml):
             style = getattr(ml, "_vf_style", "iter")
@@ -384,6 +415,10 @@ class TreeSim:
         if o.get("fallible") and self.nodes[c]["kind"] == "M":
             self.nodes[c]["fallible"] = o["fallible"]
             self.nodes[c]["obj"].__dict__["_vf_fallible"] = o["fallible"]
+        n_in_body = sum(1 for n in self.nodes if n.get("in_body"))
+        if o.get("in_body") and self.nodes[c]["kind"] == "M" and not o.get("twice") and not o.get("fallible") and n_in_body < len(ELSE_OPS):
+            self.nodes[c]["in_body"] = True
+            self.nodes[c]["obj"].__dict__["_vf_in_body"] = True
         return True
 
     def _appendable(self, p, c):
@@ -521,13 +556,13 @@ class TreeSim:
     def text(self, i, ind=0):
         n = self.nodes[i]
         kind = {"M": "Module", "L": "ModuleList", "S": "Sequential"}[n["kind"]]
-        extra = (f" name={n['name']!r}" if n["name"] else "") + (f" iter={n['style']}" if n["kind"] == "L" else "") + (" x2" if n["twice"] else "") + (f" fallible@{n['fallible']}" if n.get("fallible") else "")
+        extra = (f" name={n['name']!r}" if n["name"] else "") + (f" iter={n['style']}" if n["kind"] == "L" else "") + (" x2" if n["twice"] else "") + (f" fallible@{n['fallible']}" if n.get("fallible") else "") + (" in-If-body" if n.get("in_body") else "")
         s = "  " * ind + f"({n['key']}) " * (n["key"] is not None) + kind + extra + "".join(f" P:{a}" for a, _ in n["params"]) + "\n"
         return s + "".join(self.text(k, ind + 1) for _, k in n["kids"])
 
     def shape_sig(self, i):
         n = self.nodes[i]
-        return [n["kind"], n["key"], bool(n["name"]), n["style"] if n["kind"] == "L" else "", n["twice"], n.get("fallible"), [a for a, _ in n["params"]],
+        return [n["kind"], n["key"], bool(n["name"]), n["style"] if n["kind"] == "L" else "", n["twice"], n.get("fallible"), bool(n.get("in_body")), [a for a, _ in n["params"]],
                 [self.shape_sig(k) for _, k in n["kids"]]]
 
 
@@ -643,6 +678,8 @@ def tree_record(col, sim, verdicts, info):
         classes.append("tree:called-twice")
     if any(sim.nodes[i].get("fallible") for i in _subtree(sim, r)):
         classes.append("tree:fallible-child")
+    if any(sim.nodes[i].get("in_body") for i in _subtree(sim, r)):
+        classes.append("tree:child-called-inside-If-body")
     if info.get("ran"):
         classes.append("tree:executed:" + info.get("verdict", "?"))
     if _nested_containers(sim, r):
@@ -718,10 +755,10 @@ def make_tree_machine(col):
 
         @precondition(lambda self: self.sim.done is None and self.sim.alive("M") and self.sim.detached())
         @rule(p=ints, c=ints, attr=st.sampled_from(ATTRS), twice=st.sampled_from([False] * 7 + [True]),
-              fallible=st.sampled_from([None] * 6 + ["start", "after_params"]))
-        def attach(self, p, c, attr, twice, fallible):
+              fallible=st.sampled_from([None] * 6 + ["start", "after_params"]), in_body=st.sampled_from([False] * 4 + [True]))
+        def attach(self, p, c, attr, twice, fallible, in_body):
             self.sim.apply({"op": "attach", "parent": self._pick(self.sim.alive("M"), p), "child": self._pick(self.sim.detached(), c), "attr": attr, "twice": twice,
-                            "fallible": fallible})
+                            "fallible": fallible, "in_body": in_body})
 
         @precondition(lambda self: self.sim.done is None and self.sim.alive("LS") and self.sim.detached())
         @rule(p=ints, c=ints)
